@@ -25,6 +25,15 @@ pub async fn run<F>(
 where
     F: Future<Output = Result<BuildTerminationReport>>,
 {
+    #[cfg(zinoma_verif)]
+    let _verif_busy = crate::verif::busy(&target.id);
+    #[cfg(zinoma_verif)]
+    if crate::verif::bypass_incremental() {
+        return Ok(match future.await? {
+            BuildTerminationReport::Cancelled => IncrementalRunResult::Cancelled,
+            BuildTerminationReport::Completed => IncrementalRunResult::Completed,
+        });
+    }
     if env_state_has_not_changed_since_last_successful_execution(
         target,
         target_input,
@@ -35,15 +44,27 @@ where
         return Ok(IncrementalRunResult::Skipped);
     }
 
+    #[cfg(zinoma_verif)]
+    crate::verif::point(&target.id, crate::verif::points::DECIDED).await;
+
     storage::delete_saved_env_state(target).await?;
+
+    #[cfg(zinoma_verif)]
+    crate::verif::point(&target.id, crate::verif::points::DELETED).await;
 
     let build_report = future.await?;
 
     match build_report {
         BuildTerminationReport::Cancelled => Ok(IncrementalRunResult::Cancelled),
         BuildTerminationReport::Completed => {
+            #[cfg(zinoma_verif)]
+            crate::verif::point(&target.id, crate::verif::points::SCRIPT_DONE).await;
+
             match TargetEnvState::current(target_input, target_output).await {
                 Ok(Some(env_state)) => {
+                    #[cfg(zinoma_verif)]
+                    crate::verif::point(&target.id, crate::verif::points::STATE_COMPUTED).await;
+
                     if let Err(e) = storage::save_env_state(target, env_state).await {
                         log::warn!(
                             "{} - Failed to save state of inputs and outputs: {}",
@@ -59,6 +80,9 @@ where
                     e
                 ),
             }
+
+            #[cfg(zinoma_verif)]
+            crate::verif::point(&target.id, crate::verif::points::SAVED).await;
 
             Ok(IncrementalRunResult::Completed)
         }
